@@ -2,6 +2,7 @@ use crate::config::Config;
 use crate::diagnostic_emitter::MosResult;
 use codespan_reporting::diagnostic::Diagnostic;
 use fs_err as fs;
+use itertools::Itertools;
 use mos_core::codegen::{codegen, CodegenContext, CodegenOptions};
 use mos_core::errors::map_io_error;
 use mos_core::errors::Diagnostics;
@@ -132,9 +133,10 @@ pub fn build_command(root: &Path, cfg: &Config) -> MosResult<()> {
     bw.write_banks(banks, &target_dir, &filename)?;
 
     if cfg.build.listing {
-        for (source_path, contents) in
-            to_listing(&generated_code, cfg.formatting.listing.num_bytes_per_line)?
-        {
+        // The listings come out of a hash map; write them in a well-defined order, so that e.g. a failure to write
+        // one of them leaves the same files behind every time
+        let listings = to_listing(&generated_code, cfg.formatting.listing.num_bytes_per_line)?;
+        for (source_path, contents) in listings.into_iter().sorted_by(|a, b| a.0.cmp(&b.0)) {
             let listing_path =
                 format!("{}.lst", source_path.file_stem().unwrap().to_string_lossy());
             let mut out = fs::File::create(target_dir.join(listing_path)).map_err(map_io_error)?;
